@@ -18,6 +18,7 @@ pub mod c17;
 pub mod c18;
 pub mod c19;
 pub mod alloc_watch;
+pub mod c20;
 pub mod mutate;
 pub mod pipeline;
 pub mod prog;
@@ -55,5 +56,6 @@ pub fn registry() -> Vec<Property> {
         Property { id: "C17", gen: c17::gen, exec: c17::exec, shrink: c17::shrink, runs: (240, 5000) },
         Property { id: "C18", gen: c18::gen, exec: c18::exec, shrink: c18::shrink, runs: (48, 1500) },
         Property { id: "C19", gen: c19::gen, exec: c19::exec, shrink: c19::shrink, runs: (40, 600) },
+        Property { id: "C20", gen: c20::gen, exec: c20::exec, shrink: c20::shrink, runs: (36, 600) },
     ]
 }
